@@ -47,6 +47,10 @@ pub const RAW: &[&str] = &[
     "\u{a0}", "\u{ad}", "\t", "\r", "\n", "\x1b", "[", "]", "\x07", "\\", "m", "1", ";", "/", ">",
     "#", "*", "+", "(", ")", "\x1b[", "\x1b]", "\x1b[1m", "\x1b[1 q", "\x1b\\", "\r\n", "  ", "字",
     "。", "\u{2028}", "\u{85}", "\u{3000}", "0", "Z", ".", ",", "!",
+    // control characters, and characters whose UTF-8 encodings share lead bytes or end in
+    // bytes that look like ASCII/Latin-1 code points (0xAD, 0xA0, 0x85)
+    "\x7f", "\x0b", "\x0c", "\x00", "😭", "中", "í", "ね", "\u{2003}", "\u{2002}", "\u{2d}", "~", "@", "`",
+    "\x1b[1~", "\x1b[2@", "\x1b]0;C:\\tmp\x07",
 ];
 
 pub const VOCAB: &[&str] = &[
@@ -54,9 +58,12 @@ pub const VOCAB: &[&str] = &[
     "memory", "safety", "without", "garbage", "collection", "self-contained", "co-op", "x-ray-y",
     "--flag", "a-", "-b", "re-", "naïve", "café", "Ｈｅｌｌｏ", "日本語", "😂😭", "e\u{301}x", "zero\u{200b}width",
     "extraordinarily", "supercalifragilistic", "1-2-3", "it's", "end.", "(see)", "a/b", "0", "Z9-Z9",
+    "中中中", "😭😭", "rí-o", "café-olé", "中-文", "tab\tbed", "x\ry", "del\x7f", "pre-", "ね-ね",
 ];
 
 pub const SGR: &[&str] = &["\x1b[31m", "\x1b[0m", "\x1b[1;34m", "\x1b[m", "\x1b[38;5;196m"];
+/// well-formed CSI sequences whose final byte is not a letter, OSC with a backslash in the payload
+pub const OTHER_SEQ: &[&str] = &["\x1b[1~", "\x1b[2@", "\x1b[5`", "\x1b]0;C:\\tmp\x07", "\x1b]8;;file://C:\\x\x1b\\"];
 pub const OSC_OPEN: &[&str] = &[
     "\x1b]8;;http://example.com\x1b\\",
     "\x1b]8;;http://example.com\x07",
@@ -64,7 +71,10 @@ pub const OSC_OPEN: &[&str] = &[
 ];
 pub const OSC_CLOSE: &[&str] = &["\x1b]8;;\x1b\\", "\x1b]8;;\x07"];
 /// sequences that contain a space or an alnum-hyphen-alnum (the D6 class)
-pub const OSC_NASTY: &[&str] = &["\x1b]8;;http://my-site.com\x1b\\", "\x1b]8;;a b\x07", "\x1b[1 q"];
+pub const OSC_NASTY: &[&str] = &[
+    "\x1b]8;;http://my-site.com\x1b\\", "\x1b]8;;a b\x07", "\x1b[1 q", "\x1b[1~", "\x1b[2@", "\x1b]0;C:\\tmp\x07",
+    "\x1b]8;;file://C:\\x\x1b\\",
+];
 
 pub const INDENTS: &[&str] = &[
     "", "", "", " ", "  ", "    ", "> ", "- ", "* ", "//", "# ", "+", ">> ", "        ", "Ｈ", "é ", "-",
